@@ -117,3 +117,133 @@ func vpH_c19_marshal_frame() {
 		vpAssert(ok, "encoders do not drop index entries")
 	}
 }
+
+func init() {
+	vpRegister("c05_step_str", vpH_c05_step_str)
+	vpRegister("c05_equal_nested", vpH_c05_equal_nested)
+}
+
+// the string-keyed, any-valued instantiation used by the parser: one mutator
+// from an arbitrary RI state (keys of 0/1 symbolic bytes incl. the empty key)
+func vpH_c05_step_str() {
+	n := vpParam("slots")
+	src := vpMkMapSS(n)
+	// same state as a Map[string, any]
+	m := &Map[string, any]{index: map[string]int{}}
+	for i, it := range src.items {
+		m.items = append(m.items, Tuple[string, any]{Key: it.Key, Value: it.Value, deleted: it.deleted})
+		if !it.deleted {
+			m.index[it.Key] = i
+		}
+	}
+	pre := vpAbsSS(src)
+	k, k2, v := vpStrUpTo(1, "a-c"), vpStrUpTo(1, "a-c"), vpStrUpTo(1, "x-y")
+	var want []vpPairS
+	find := func(l []vpPairS, key string) int {
+		for i, p := range l {
+			if p.k == key {
+				return i
+			}
+		}
+		return -1
+	}
+	switch vpInt(0, 2) {
+	case 0:
+		m.Set(k, v)
+		want = append(want, pre...)
+		if i := find(want, k); i >= 0 {
+			want[i].v = v
+		} else {
+			want = append(want, vpPairS{k, v})
+		}
+	case 1:
+		m.Replace(k, k2, v)
+		i := find(pre, k)
+		for j, p := range pre {
+			switch {
+			case j == i:
+				want = append(want, vpPairS{k2, v})
+			case p.k == k2 && k != k2:
+				// a colliding entry is dropped
+			case p.k == k2 && i < 0:
+				// old absent: an entry keyed new is dropped, the new one is appended
+			default:
+				want = append(want, p)
+			}
+		}
+		if i < 0 {
+			want = append(want, vpPairS{k2, v})
+		}
+	default:
+		m.Delete(k)
+		for _, p := range pre {
+			if p.k != k {
+				want = append(want, p)
+			}
+		}
+	}
+	// observers of the string-keyed instantiation against the model
+	vpAssert(m.Len() == len(want), "string keys: Len agrees with model")
+	i := 0
+	m.Range(func(key string, val any) error {
+		vpAssert(i < len(want) && key == want[i].k && val == any(want[i].v), "string keys: Range order and contents agree with model")
+		i++
+		return nil
+	})
+	vpAssert(i == len(want), "string keys: Range visits every live entry")
+	probe := vpStrUpTo(1, "a-c")
+	got, ok := m.Get(probe)
+	j := find(want, probe)
+	vpAssert(ok == (j >= 0) && (j < 0 || got == any(want[j].v)), "string keys: Get agrees with model")
+	live := 0
+	for idx, it := range m.items {
+		if !it.deleted {
+			live++
+			p, has := m.index[it.Key]
+			vpAssert(has && p == idx, "string keys: index points at every live slot")
+		}
+	}
+	vpAssert(len(m.index) == live, "string keys: index holds nothing else")
+}
+
+// Equal on any-valued maps with nested ordered maps (go-cmp with the two registered comparers)
+func vpH_c05_equal_nested() {
+	mk := func() (*Map[string, any], []vpPairS, []vpPairS) {
+		outer := NewMap[string, any](0)
+		inner := NewMap[string, any](0)
+		var ol, il []vpPairS
+		for i := 0; i < vpInt(0, 2); i++ {
+			k, v := vpStrUpTo(1, "a-b"), vpStrUpTo(1, "x-y")
+			if inner.Contains(k) {
+				continue
+			}
+			inner.Set(k, v)
+			il = append(il, vpPairS{k, v})
+		}
+		for i := 0; i < vpInt(0, 1); i++ {
+			k, v := vpStrUpTo(1, "a-b"), vpStrUpTo(1, "x-y")
+			outer.Set(k, v)
+			ol = append(ol, vpPairS{k, v})
+		}
+		if !outer.Contains("n") {
+			outer.Set("n", inner)
+		}
+		return outer, ol, il
+	}
+	eq := func(a, b []vpPairS) bool {
+		if len(a) != len(b) {
+			return false
+		}
+		for i := range a {
+			if a[i] != b[i] {
+				return false
+			}
+		}
+		return true
+	}
+	a, ao, ai := mk()
+	b, bo, bi := mk()
+	want := eq(ao, bo) && eq(ai, bi)
+	vpAssert(Equal(a, b) == want, "Equal on nested any-valued maps is deep equality of keys, values and order")
+	vpAssert(Equal(b, a) == want, "Equal on nested maps is symmetric")
+}
